@@ -12,7 +12,8 @@ from .vlib import COQ, Check, cps, hexs, with_timeout, ImplTimeout
 PID = "C11"
 CLAIM = dict(
     text="Coq theorems over an executable model of werkzeug's conditional / range response code: the validator decision "
-         "(is_resource_modified, is_byte_range_valid, Range.range_for_length, the processable / range guards are regenerated "
+         "(is_resource_modified, is_byte_range_valid, Range.range_for_length, the processable / range guards, and the arithmetic of "
+         "_RangeWrapper and parse_range_header under pinned statement skeletons, are regenerated "
          "from the source text on every run and the 304 / 412 / 416 / 200 theorems are re-proved against them), the 206 slice "
          "theorem for _RangeWrapper over every chunking in both wrapper modes, Content-Range / Content-Length agreement, and the "
          "Range and ETag header grammars. Tied to the code by the translator and by differential execution (extracted OCaml "
@@ -45,8 +46,13 @@ def norm(node: ast.AST) -> str:
 
 class T2:
     def __init__(self, where: str, var_types: dict, atoms: dict | None = None, funcs: dict | None = None,
-                 methods: dict | None = None, ret: str = "bool", params: list | None = None):
+                 methods: dict | None = None, ret: str = "bool", params: list | None = None,
+                 attrs: dict | None = None, cmps: dict | None = None, patterns: list | None = None):
         self.where = where
+        # rules keyed on types, not on variable names (so that renamed locals translate the same):
+        self.attrs = attrs or {}          # (type, attribute) -> (function of the value, result type)
+        self.cmps = cmps or {}            # (op class name, left type, right type) -> function of both values
+        self.patterns = patterns or []    # (matcher(node) -> operand node | None, operand type, function, result type, pure)
         self.var_types = dict(var_types)
         self.atoms = atoms or {}
         self.funcs = funcs or {}
@@ -70,6 +76,18 @@ class T2:
         if key in self.atoms:
             self.used_atoms.add(key)
             return self.atoms[key]
+        for matcher, want, fn, rt, pure in self.patterns:
+            sub = matcher(node)
+            if sub is not None:
+                return self.call(fn, [want], rt, pure, [sub], node), rt
+        if isinstance(node, ast.Attribute) and not (isinstance(node.value, ast.Name) and node.value.id == "self"):
+            try:
+                t, ty = self.E(node.value)
+            except px.Unsupported:
+                ty = None
+            if (ty, node.attr) in self.attrs:
+                fn, rt = self.attrs[(ty, node.attr)]
+                return self.call(fn, [ty], rt, False, [node.value], node), rt
         if isinstance(node, ast.Constant):
             v = node.value
             if v is True:
@@ -129,8 +147,17 @@ class T2:
                     self.bad("min of non-int", node)
                 return f"min_ ({a}) ({b})", "int"
             if fkey in self.funcs:
-                fn, argt, rt, pure = self.funcs[fkey]
-                return self.call(fn, argt, rt, pure, node.args, node), rt
+                over = self.funcs[fkey]
+                if isinstance(over, tuple):
+                    over = [over]
+                argtys = []
+                for a in node.args:
+                    argtys.append(self.E(a)[1])
+                for fn, argt, rt, pure in over:
+                    if len(argt) == len(argtys) and all(x == y or (x == "none" and y in OPTION_TYPES)
+                                                        for x, y in zip(argtys, argt)):
+                        return self.call(fn, argt, rt, pure, node.args, node), rt
+                self.bad(f"no overload for argument types {argtys}", node)
             if isinstance(node.func, ast.Attribute) and node.func.attr in self.methods:
                 fn, argt, rt, pure = self.methods[node.func.attr]
                 return self.call(fn, argt, rt, pure, [node.func.value] + list(node.args), node), rt
@@ -173,6 +200,8 @@ class T2:
             core = self.lift1("is_none", t)
             return core if isinstance(op, ast.Is) else f"not_ ({core})"
         (ta, tya), (tb, tyb) = self.E(a), self.E(b)
+        if (type(op).__name__, tya, tyb) in self.cmps:
+            return self.call(self.cmps[(type(op).__name__, tya, tyb)], [tya, tyb], "bool", False, [a, b], node)
         table = {ast.Lt: "lt_", ast.LtE: "le_", ast.Gt: "gt_", ast.GtE: "ge_"}
         if type(op) in table:
             if tya != "int" or tyb != "int":
@@ -197,6 +226,47 @@ class T2:
         if ty in TRUTHY:
             return self.lift1(TRUTHY[ty], t)
         self.bad(f"truth value of type {ty}", node)
+
+    def infer_locals(self, stmts) -> None:
+        """types of the local variables from what is assigned to them, whatever they are called"""
+        params = set(self.var_types)
+        saved_defined, saved_n = set(self.defined), self.n
+        nodes = [n for st in stmts for n in ast.walk(st) if isinstance(n, (ast.Assign, ast.AnnAssign, ast.AugAssign))]
+        names: set[str] = set()
+        for _ in range(6):
+            for n in nodes:
+                target = n.targets[0] if isinstance(n, ast.Assign) else n.target
+                value = n.value
+                if value is None:
+                    continue
+                self.defined = set(self.var_types) | names
+                try:
+                    ty = "int" if isinstance(n, ast.AugAssign) else self.E(value)[1]
+                except px.Unsupported:
+                    continue
+                pairs = []
+                if isinstance(target, ast.Name):
+                    pairs = [(target.id, ty)]
+                elif isinstance(target, ast.Tuple):
+                    m = re.fullmatch(r"pair\((\w+),(\w+)\)", ty)
+                    if m and len(target.elts) == 2 and all(isinstance(e, ast.Name) for e in target.elts):
+                        pairs = [(e.id, t1) for e, t1 in zip(target.elts, m.groups())]
+                for name, t1 in pairs:
+                    if name == "_" or name in params:
+                        continue
+                    names.add(name)
+                    if t1 == "none":
+                        continue
+                    if self.var_types.get(name, t1) != t1:
+                        self.bad(f"local {name} is assigned values of types {self.var_types[name]} and {t1}")
+                    self.var_types[name] = t1
+        for n in nodes:
+            target = n.targets[0] if isinstance(n, ast.Assign) else n.target
+            for e in ([target] if isinstance(target, ast.Name) else getattr(target, "elts", [])):
+                if isinstance(e, ast.Name) and e.id != "_" and e.id not in self.var_types:
+                    self.bad(f"type of local {e.id} cannot be inferred")
+        self.defined, self.n = saved_defined, saved_n
+        self.used_atoms = set()
 
     # ---------------------------------------------------------------- statements
     @staticmethod
@@ -382,6 +452,211 @@ def body_wo_doc(fn: ast.FunctionDef) -> list:
     return b
 
 
+# ====================================================================== statement skeletons
+# For stateful code (loops, try/except, attribute updates) the control structure is pinned as text, and the
+# arithmetic inside it - loop and branch conditions, slice bounds, offsets, initial values - is lifted out and
+# regenerated as small Gallina functions over Z which the hand-written model calls.  An edited comparison or
+# offset gives a different generated function; the bridging lemmas in the proofs then fail.
+
+class _Lifter(ast.NodeTransformer):
+    def __init__(self, targets: set[str]):
+        self.targets = targets
+        self.lifted: list[ast.expr] = []
+
+    def hole(self, node):
+        self.lifted.append(node)
+        return ast.copy_location(ast.Name(id=f"E{len(self.lifted)}", ctx=ast.Load()), node)
+
+    def visit_If(self, node):
+        node.test = self.hole(node.test)
+        node.body = [self.visit(s) for s in node.body]
+        node.orelse = [self.visit(s) for s in node.orelse]
+        return node
+
+    def visit_While(self, node):
+        node.test = self.hole(node.test)
+        node.body = [self.visit(s) for s in node.body]
+        return node
+
+    def visit_Assign(self, node):
+        if len(node.targets) == 1 and norm(node.targets[0]) in self.targets:
+            node.value = self.hole(node.value)
+        else:
+            node.value = self.visit(node.value)
+        return node
+
+    def visit_AugAssign(self, node):
+        if norm(node.target) in self.targets:
+            node.value = self.hole(node.value)
+        return node
+
+    def visit_Slice(self, node):
+        if node.lower is not None:
+            node.lower = self.hole(node.lower)
+        if node.upper is not None:
+            node.upper = self.hole(node.upper)
+        return node
+
+    def visit_Call(self, node):
+        if isinstance(node.func, ast.Attribute) and node.func.attr == "seek":
+            node.args = [self.hole(a) for a in node.args]
+            return node
+        return self.generic_visit(node)
+
+
+def skeleton(fn: ast.FunctionDef, targets: set[str]):
+    import copy
+    body = copy.deepcopy(body_wo_doc(fn))
+    lf = _Lifter(targets)
+    out = [lf.visit(s) for s in body]
+    return "\n".join(norm(s) for s in out), lf.lifted
+
+
+def zexpr(node, vm: dict, where: str) -> str:
+    """integer / boolean expression over Z; vm maps source sub-expression texts to Gallina variables"""
+    key = norm(node)
+    if key in vm:
+        return vm[key]
+    if isinstance(node, ast.Constant) and isinstance(node.value, int) and not isinstance(node.value, bool):
+        return f"({node.value})%Z"
+    if isinstance(node, ast.UnaryOp) and isinstance(node.op, ast.USub) and isinstance(node.operand, ast.Constant):
+        return f"(-{node.operand.value})%Z"
+    if isinstance(node, ast.UnaryOp) and isinstance(node.op, ast.Not):
+        return f"negb ({zexpr(node.operand, vm, where)})"
+    if isinstance(node, ast.BinOp) and isinstance(node.op, (ast.Add, ast.Sub)):
+        op = "+" if isinstance(node.op, ast.Add) else "-"
+        return f"({zexpr(node.left, vm, where)} {op} {zexpr(node.right, vm, where)})%Z"
+    if isinstance(node, ast.BoolOp):
+        op = "&&" if isinstance(node.op, ast.And) else "||"
+        return "(" + f" {op} ".join(zexpr(v, vm, where) for v in node.values) + ")"
+    if isinstance(node, ast.Compare) and len(node.ops) == 1:
+        a, b = zexpr(node.left, vm, where), zexpr(node.comparators[0], vm, where)
+        tbl = {ast.Lt: "<?", ast.LtE: "<=?", ast.Gt: ">?", ast.GtE: ">=?", ast.Eq: "=?"}
+        if type(node.ops[0]) in tbl:
+            return f"({a} {tbl[type(node.ops[0])]} {b})%Z"
+        if isinstance(node.ops[0], ast.NotEq):
+            return f"negb ({a} =? {b})%Z"
+    if isinstance(node, ast.IfExp) and norm(node.test) == f"{norm(node.body)} is not None" and isinstance(node.body, ast.Name) \
+            and ("opt:" + node.body.id) in vm:
+        return f"match {vm['opt:' + node.body.id]} with Some v => v | None => {zexpr(node.orelse, vm, where)} end"
+    raise px.Unsupported(f"{where}: arithmetic expression `{key}` outside the translated subset")
+
+
+def gen_skeleton(fn, where, targets, want_skel, roles, vm) -> str:
+    """roles: per lifted expression either ('pin', text) or ('gen', name, params, rettype)"""
+    skel, lifted = skeleton(fn, targets)
+    if skel != want_skel:
+        raise px.Unsupported(f"{where}: statement structure changed:\n{skel}")
+    if len(lifted) != len(roles):
+        raise px.Unsupported(f"{where}: {len(lifted)} lifted expressions, expected {len(roles)}")
+    out = ""
+    for node, role in zip(lifted, roles):
+        if role[0] == "pin":
+            if norm(node) != role[1]:
+                raise px.Unsupported(f"{where}: expression `{norm(node)}` changed (expected `{role[1]}`)")
+        else:
+            _, name, params, rt = role
+            out += f"Definition {name} {params} : {rt} := {zexpr(node, vm, where)}.\n"
+    return out
+
+
+RW_VM = {"self.read_length": "read_length", "self.start_byte": "start_byte", "self.end_byte": "end_byte",
+         "contextual_read_length": "contextual_read_length", "start_byte": "start_byte", "byte_range": "byte_range",
+         "len(chunk)": "chunk_len", "self.end_byte is not None": "end_byte_set", "chunk": "chunk_truthy",
+         "self.end_reached": "end_reached"}
+RW_SKEL = {
+    "__init__": ("self.iterable = iter(iterable)\nself.byte_range = byte_range\nself.start_byte = start_byte\nself.end_byte = E1\n"
+                 "if E2:\n    self.end_byte = E3\nself.read_length = E4\n"
+                 "self.seekable = hasattr(iterable, 'seekable') and iterable.seekable()\nself.end_reached = False",
+                 [("pin", "None"), ("pin", "byte_range is not None"),
+                  ("gen", "rw_end_byte", "(start_byte byte_range : Z)", "Z"), ("gen", "rw_initial_read_length", "", "Z")]),
+    "_next_chunk": ("try:\n    chunk = next(self.iterable)\n    self.read_length += E1\n    return chunk\n"
+                    "except StopIteration:\n    self.end_reached = True\n    raise",
+                    [("gen", "rw_advance", "(chunk_len : Z)", "Z")]),
+    "_first_iteration": ("chunk = None\nif E1:\n    self.iterable.seek(E2)\n    self.read_length = E3\n    contextual_read_length = E4\n"
+                         "else:\n    while E5:\n        chunk = self._next_chunk()\n    if E6:\n        chunk = chunk[E7:]\n"
+                         "    contextual_read_length = E8\nreturn (chunk, contextual_read_length)",
+                         [("pin", "self.seekable"), ("gen", "rw_seek_pos", "(start_byte : Z)", "Z"), ("pin", "self.iterable.tell()"),
+                          ("gen", "rw_crl_seek", "(read_length : Z)", "Z"),
+                          ("gen", "rw_skip_more", "(read_length start_byte : Z)", "bool"), ("pin", "chunk is not None"),
+                          ("gen", "rw_first_index", "(start_byte read_length : Z)", "Z"),
+                          ("gen", "rw_crl_skip", "(start_byte : Z)", "Z")]),
+    "_next": ("if E1:\n    raise StopIteration()\nchunk = None\ncontextual_read_length = E2\nif E3:\n"
+              "    chunk, contextual_read_length = self._first_iteration()\nif E4:\n    chunk = self._next_chunk()\n"
+              "if E5:\n    self.end_reached = True\n    return chunk[:E6]\nreturn chunk",
+              [("pin", "self.end_reached"), ("gen", "rw_crl_plain", "(read_length : Z)", "Z"),
+               ("gen", "rw_is_first", "(read_length : Z)", "bool"), ("pin", "chunk is None"),
+               ("gen", "rw_range_done", "(end_byte_set : bool) (read_length end_byte : Z)", "bool"),
+               ("gen", "rw_cut_index", "(end_byte contextual_read_length : Z)", "Z")]),
+    "__next__": ("chunk = self._next()\nwhile E1:\n    chunk = self._next()\nif E2:\n    return chunk\nself.end_reached = True\n"
+                 "raise StopIteration()",
+                 [("gen", "rw_retry", "(chunk_truthy end_reached : bool)", "bool"), ("pin", "chunk")]),
+}
+RW_TARGETS = {"self.end_byte", "self.read_length", "contextual_read_length"}
+# in rw_advance the generated function is the increment applied to read_length
+PRH_VM = {"last_end": "last_end", "begin": "begin", "end": "end_", "_plain_int(end_str)": "last_pos", "opt:end": "end_opt"}
+PRH_SKEL = (
+    "if E1:\n    return None\nranges = []\nlast_end = E2\nunits, rng = value.split('=', 1)\nunits = units.strip().lower()\n"
+    "for item in rng.split(','):\n    item = item.strip()\n    if E3:\n        return None\n    if E4:\n        if E5:\n"
+    "            return None\n        try:\n            begin = E6\n        except ValueError:\n            return None\n"
+    "        if E7:\n            return None\n        end = E8\n        last_end = E9\n    elif E10:\n"
+    "        begin_str, end_str = item.split('-', 1)\n        begin_str = begin_str.strip()\n        end_str = end_str.strip()\n"
+    "        try:\n            begin = E11\n        except ValueError:\n            return None\n        if E12:\n"
+    "            return None\n        if E13:\n            if E14:\n                return None\n            try:\n"
+    "                end = E15\n            except ValueError:\n                return None\n            if E16:\n"
+    "                return None\n        else:\n            end = E17\n        last_end = E18\n    ranges.append((begin, end))\n"
+    "return ds.Range(units, ranges)")
+PRH_ROLES = [
+    ("pin", "not value or '=' not in value"), ("gen", "prh_last_end_init", "", "Z"), ("pin", "'-' not in item"),
+    ("pin", "item.startswith('-')"), ("gen", "prh_suffix_blocked", "(last_end : Z)", "bool"), ("pin", "_plain_int(item)"),
+    ("gen", "prh_suffix_empty", "(begin : Z)", "bool"), ("pin", "None"), ("gen", "prh_last_end_suffix", "", "Z"),
+    ("pin", "'-' in item"), ("pin", "_plain_int(begin_str)"), ("gen", "prh_begin_blocked", "(begin last_end : Z)", "bool"),
+    ("pin", "end_str"), ("pin", "end_str.startswith('-')"), ("gen", "prh_end_of", "(last_pos : Z)", "Z"),
+    ("gen", "prh_empty_range", "(begin end_ : Z)", "bool"), ("pin", "None"),
+    ("gen", "prh_last_end_next", "(end_opt : option Z)", "Z"),
+]
+PRH_TARGETS = {"last_end", "begin", "end"}
+
+
+def gen_arith() -> None:
+    """coq/C11/GenArith.v: the arithmetic of wsgi._RangeWrapper and http.parse_range_header"""
+    wsgi = px.load("wsgi.py")
+    http = px.load("http.py")
+    out = ("(* GENERATED by tools/c11.py from wsgi.py (_RangeWrapper) and http.py (parse_range_header) on every run - do not edit.\n"
+           "   The statement structure of these functions is pinned by the translator; the conditions, offsets and slice\n"
+           "   bounds inside it are the definitions below. *)\nFrom Coq Require Import ZArith Bool.\nOpen Scope Z_scope.\n\n")
+    cls = px.find_class(wsgi, "_RangeWrapper")
+    for m in ("__init__", "_next_chunk", "_first_iteration", "_next", "__next__"):
+        want, roles = RW_SKEL[m]
+        out += f"(* _RangeWrapper.{m} *)\n" + gen_skeleton(find_method(cls, m), f"_RangeWrapper.{m}", RW_TARGETS, want, roles, RW_VM)
+    out += "\n(* http.parse_range_header *)\n"
+    out += gen_skeleton(px.find_def(http, "parse_range_header"), "parse_range_header", PRH_TARGETS, PRH_SKEL, PRH_ROLES, PRH_VM)
+    # utils.send_file: what it hands to make_conditional (pinned statements) and wrap_file's default block size
+    utils = px.load("utils.py")
+    sf = px.find_def(utils, "send_file")
+    stmts = {norm(n) for n in ast.walk(sf) if isinstance(n, ast.stmt)}
+    for want_stmt in ("size = stat.st_size", "size = file.getbuffer().nbytes", "data = wrap_file(environ, file)",
+                      "rv = response_class(data, mimetype=mimetype, headers=headers, direct_passthrough=True)",
+                      "if size is not None:\n    rv.content_length = size",
+                      "rv = rv.make_conditional(environ, accept_ranges=True, complete_length=size)"):
+        if want_stmt not in stmts:
+            raise px.Unsupported(f"send_file: statement `{want_stmt}` no longer occurs")
+    wf = px.find_def(wsgi, "wrap_file")
+    expect_params(wf, ["environ", "file", "buffer_size"], "wrap_file")
+    bsz = [px.const(d) for d in wf.args.defaults]
+    if len(bsz) != 1 or not isinstance(bsz[0], int):
+        raise px.Unsupported("wrap_file: default buffer_size")
+    if "return environ.get('wsgi.file_wrapper', FileWrapper)(file, buffer_size)" not in {norm(n) for n in ast.walk(wf) if isinstance(n, ast.stmt)}:
+        raise px.Unsupported("wrap_file: body changed")
+    out += f"\n(* wsgi.wrap_file default buffer_size *)\nDefinition file_wrapper_buffer_size : N := {bsz[0]}%N.\n"
+    # FileWrapper.__next__: blocks of buffer_size, never empty
+    fw = px.find_class(wsgi, "FileWrapper")
+    want = "data = self.file.read(self.buffer_size)\nif data:\n    return data\nraise StopIteration()"
+    if "\n".join(norm(s) for s in body_wo_doc(find_method(fw, "__next__"))) != want:
+        raise px.Unsupported("FileWrapper.__next__ changed")
+    px.write_if_changed(os.path.join(COQ, "C11", "GenArith.v"), out)
+
+
 IRM_PROLOGUE = [
     "if etag is None and data is not None:\n    etag = generate_etag(data)\nelif data is not None:\n    raise TypeError('both data and etag given')",
 ]
@@ -394,7 +669,8 @@ ENV_FIELD = {"HTTP_RANGE": "q_range", "HTTP_IF_RANGE": "q_if_range", "HTTP_IF_MO
 
 
 def gen() -> None:
-    """T1 + T2: regenerate coq/C11/Gen.v from the anchored source files."""
+    """T1 + T2: regenerate coq/C11/GenArith.v and coq/C11/Gen.v from the anchored source files."""
+    gen_arith()
     http = px.load("http.py")
     sans = px.load("sansio/http.py")
     rng = px.load("datastructures/range.py")
@@ -510,7 +786,7 @@ def gen() -> None:
     out += "\n(* ---- T2: datastructures.Range.range_for_length *)\n"
     fn = find_method(rcls, "range_for_length")
     expect_params(fn, ["self", "length"], "range_for_length")
-    t = T2("range_for_length", {"length": "int", "start": "int", "end": "int"},
+    t = T2("range_for_length", {"length": "int"},
            atoms={"self.units != 'bytes'": ("Ok (negb (list_eqb (r_units self) s_bytes))", "bool"),
                   "len(self.ranges)": ("Ok (Some (Z.of_nat (List.length (r_ranges self))))", "int"),
                   "self.ranges[0]": ("ranges_first self", "pair(int,int)")},
@@ -518,6 +794,7 @@ def gen() -> None:
            ret="opt_pair", params=["length"])
     out += ("Definition ranges_first (r : range) : res (pint * pint) :=\n"
             "  match r_ranges r with (a, b) :: _ => Ok (Some a, b) | [] => Raise ValueError end.\n")
+    t.infer_locals(body_wo_doc(fn))
     out += "Definition range_for_length (self : range) (length : pint) : res (option (pint * pint)) :=\n  " \
            + t.S(body_wo_doc(fn), None) + ".\n"
     for a in t.atoms:
@@ -534,23 +811,24 @@ def gen() -> None:
     body = body[len(IRM_PROLOGUE):]
     t = T2("is_resource_modified",
            {"http_range": "ostr", "http_if_range": "ostr", "http_if_modified_since": "ostr", "http_if_none_match": "ostr",
-            "http_if_match": "ostr", "etag": "ostr", "last_modified": "lm", "ignore_if_range": "bool",
-            "unmodified": "bool", "if_range": "oifr", "modified_since": "odate", "if_none_match": "etags", "if_match": "etags"},
+            "http_if_match": "ostr", "etag": "ostr", "last_modified": "lm", "ignore_if_range": "bool"},
            atoms={"isinstance(last_modified, str)": ("Ok (lm_is_str last_modified)", "bool"),
                   "parse_date(last_modified)": ("Ok (lm_parse parse_date last_modified)", "lm"),
                   "_dt_as_utc(last_modified.replace(microsecond=0))": ("lm_floor last_modified", "lm"),
                   "parse_if_range_header(http_if_range)": ("Ok (Some (parse_if_range_header parse_date http_if_range))", "oifr"),
-                  "if_range.date": ("ifr_date_ if_range", "odate"),
-                  "if_range.etag": ("ifr_etag_ if_range", "ostr"),
                   "parse_date(http_if_modified_since)": ("Ok (parse_date_opt parse_date http_if_modified_since)", "odate"),
-                  "last_modified <= modified_since": ("dt_le last_modified modified_since", "bool"),
                   "unquote_etag(etag)": ("Ok (unquote_etag etag)", "pair(ostr,obool)")},
+           # the local variables (unmodified, if_range, modified_since, if_none_match, if_match in the current source) are
+           # recognised by the types of what is assigned to them, not by their names
+           attrs={("oifr", "date"): ("ifr_date_", "odate"), ("oifr", "etag"): ("ifr_etag_", "ostr")},
+           cmps={("LtE", "lm", "odate"): "dt_le"},
            funcs={"parse_etags": ("parse_etags", ["ostr"], "etags", False)},
            methods={"contains": ("contains", ["etags", "ostr"], "bool", True),
                     "contains_weak": ("contains_weak", ["etags", "ostr"], "bool", True),
                     "is_strong": ("is_strong", ["etags", "ostr"], "bool", True),
                     "is_weak": ("is_weak", ["etags", "ostr"], "bool", True)},
            params=[p for p in IRM_PARAMS if p != "data"])
+    t.infer_locals(body)
     out += ("Definition is_resource_modified (http_range http_if_range http_if_modified_since http_if_none_match http_if_match "
             "etag : option str)\n    (last_modified : lmval) (ignore_if_range : bool) : res bool :=\n  "
             + t.S(body, None) + ".\n")
@@ -905,6 +1183,15 @@ def body_field(c: Case) -> str:
 
 
 def model_line(c: Case, parse_date) -> str:
+    if c.via == "send_file":
+        dates = []
+        for h in (c.ims, c.if_range, c.lm):
+            if h:
+                d = parse_date(h)
+                if d is not None:
+                    dates.append(f"{cps(h)}={micros(d)}")
+        return " ".join(["sf", cps(c.method), o(c.range), o(c.if_range), o(c.ims), o(c.inm), o(c.im), o(c.etag), o(c.lm),
+                         hexs(c.data), ";".join(sorted(set(dates))) or "-"])
     dates = []
     for h in (c.ims, c.if_range, c.lm):
         if h:
@@ -1663,7 +1950,9 @@ def main(chk: Check) -> None:
     chk.trusted += [
         "translator tools/c11.py + tools/pyextract.py: T2 statement subset (if/elif/else, assignment, return, and/or/not, comparisons, "
         "None tests) into the exception monad of C11/Base.v; atom tables for calls and attribute reads; pinned statement texts for "
-        "_process_range_request's tail, make_conditional's decision, _plain_int, to_content_range_header",
+        "_process_range_request's tail, make_conditional's decision, _plain_int, to_content_range_header, send_file's calls; "
+        "statement skeletons of _RangeWrapper.{__init__,_next_chunk,_first_iteration,_next,__next__} and parse_range_header pinned "
+        "with their comparisons / offsets / slice bounds regenerated into C11/GenArith.v; locals are typed by inference, not by name",
         "extraction ExtrOcamlBasic (no Extract Constant) + tools/conv.ml + coq/C11/driver.ml, OCaml 4.13.1",
         "hand-written matchers for _etag_re and _plain_int_re (pattern texts pinned by C11/Gen.v), validated by differential "
         "execution against CPython re; header text without LF; str.strip / \\s modelled with the interpreter's white-space table "
